@@ -12,7 +12,7 @@ const char *CHK_RULE = "one case = one scenario (generated table, 1..8 lines, op
                        "(scenario output hash, schedule family, refusal count)";
 
 static prng_t HA, HU;
-static bool event_mode;
+static bool event_mode, crfree;      /* crfree: every event is triggered when no CR is left in the input, so even the newline style of the event units is determined */
 static char trace[2][1 << 15]; static size_t tn[2]; static uint64_t th[2];
 static char uunits[1 << 14]; static size_t un;
 static long lines_started, events_started;
@@ -95,7 +95,7 @@ static void on_unit(bool isA, bool raw, const char *text, size_t len, bool a, bo
         uunits[un] = 0;
 }
 
-struct result { uint8_t outA[1 << 15]; size_t nA; uint64_t th[2]; char *tr[2]; char *uu; uint8_t *vars; bool quiet; long refusals; };
+struct result { uint8_t outU[1 << 14]; size_t nU; uint8_t outA[1 << 15]; size_t nA; uint64_t th[2]; char *tr[2]; char *uu; uint8_t *vars; bool quiet; long refusals; };
 static struct result base, var;
 static void result_free(struct result *r) { free(r->tr[0]); free(r->tr[1]); free(r->uu); free(r->vars); memset(r, 0, sizeof *r); }
 
@@ -140,6 +140,8 @@ static void run_once(struct result *res, int fillmode)
         res->refusals = N_READ_NO + N_WRITE_NO - r0;
         res->nA = 0;
         for (size_t i = 0; i < OUTN && res->nA < sizeof res->outA; i++) if (OUTP[i] == 'A') res->outA[res->nA++] = OUTB[i];
+        res->nU = 0;
+        for (size_t i = 0; i < OUTN && res->nU < sizeof res->outU; i++) if (OUTP[i] == 'U') res->outU[res->nU++] = OUTB[i];
         res->th[0] = th[0]; res->th[1] = th[1]; res->tr[0] = strdup(trace[0]); res->tr[1] = strdup(trace[1]); res->uu = strdup(uunits);
         res->vars = malloc(nvarbytes + 1); w_save_vars(res->vars);
 }
@@ -232,11 +234,19 @@ void chk_run_case(uint64_t seed, long c, bool is_sweep)
         /* input and segments */
         in_reset();
         nseg = event_mode ? 1 + (int)rn(MAXSEG) : 1;
+        crfree = event_mode && nseg >= 2 && chance(40);
         for (int s = 0; s < nseg; s++) {
                 unsigned nl = event_mode ? rn(3) : 1 + rn(8);
-                for (unsigned l = 0; l < nl; l++) eng_gen_line();
+                if (crfree && s == 0) nl = 1 + rn(2);
+                for (unsigned l = 0; l < nl; l++) {
+                        size_t from = INLEN;
+                        eng_gen_line();
+                        if (crfree && s == 0 && l + 1 == nl && INLEN - from >= 2 && INB[INLEN - 2] != '\r') { INB[INLEN - 1] = '\r'; in_putc('\n'); }      /* the last line before the first events ends in CR LF */
+                        if (crfree && s > 0) { size_t w = from; for (size_t r = from; r < INLEN; r++) if (INB[r] != '\r') INB[w++] = INB[r]; INLEN = w; }
+                }
                 seg[s].in_end = INLEN;
                 seg[s].ntrig = event_mode ? (int)rn(QCAP + 1) : 0;
+                if (crfree && s == 0) seg[s].ntrig = 0;
                 for (int t = 0; t < seg[s].ntrig; t++) { seg[s].tci[t] = (int)rn(W.ncmds); seg[s].ttype[t] = chance(50) ? CAT_CMD_TYPE_READ : CAT_CMD_TYPE_TEST; }
         }
         static uint8_t in_copy[INCAP]; size_t in_len = INLEN; memcpy(in_copy, INB, INLEN);
@@ -260,6 +270,7 @@ void chk_run_case(uint64_t seed, long c, bool is_sweep)
                 else if (var.nA != base.nA || memcmp(var.outA, base.outA, base.nA) != 0)
                         viol("C12", "output-differs", "command-producer output under schedule [%s] differs from the eager schedule (%zu vs %zu bytes)", sched_desc, var.nA, base.nA);
                 else if (strcmp(var.uu, base.uu) != 0) viol("C12", "event-output-differs", "event units under schedule [%s] differ from the eager schedule", sched_desc);
+                else if (crfree && (var.nU != base.nU || memcmp(var.outU, base.outU, base.nU) != 0)) viol("C12", "event-output-differs", "event-producer bytes (newline style included: no CR is left in the input when the events are triggered) under schedule [%s] differ from the eager schedule", sched_desc);
                 else if (var.th[0] != base.th[0]) viol("C12", "handler-trace-differs", "command-FSM handler trace under schedule [%s] differs from the eager schedule", sched_desc);
                 else if (var.th[1] != base.th[1]) viol("C12", "event-handler-trace-differs", "event-FSM handler trace under schedule [%s] differs from the eager schedule", sched_desc);
                 else if (memcmp(var.vars, base.vars, nvarbytes) != 0) viol("C12", "final-variables-differ", "final variable bytes under schedule [%s] differ from the eager schedule", sched_desc);
@@ -267,6 +278,7 @@ void chk_run_case(uint64_t seed, long c, bool is_sweep)
         }
         if (base.nA > 0 && refus > 0) nontrivial(hash_u64(fams, hash_u64((uint64_t)(refus > 200 ? 200 : refus), hash_bytes(base.outA, base.nA, base.th[0]))));
         if (event_mode) CNT("scenarios_with_events"); else CNT("scenarios_without_events");
+        if (crfree) CNT("scenarios_comparing_event_bytes_newline_style_included");
         if (sample_wanted()) { char b[300]; fmt_bytes(b, sizeof b, in_copy, in_len > 70 ? 70 : in_len); sample_printf("%zu commands, %s, input \"%s\": %d schedules (families mask 0x%llx, %ld refusals) all equal to eager: %zu output bytes", W.ncmds, event_mode ? "with events" : "no events", b, nvariants, (unsigned long long)fams, refus, base.nA); }
         if (!case_failed()) { result_free(&base); result_free(&var); }
 }
